@@ -13,7 +13,9 @@ necessary for that exactness — breaking one makes the construction wrong on so
   N4 the closure worklist skips only items already present, and the look-ahead of implied items is
      FIRST(beta) extended by the item's own look-ahead exactly when beta is nullable;
   N5 a transition is recorded for every symbol right of a dot, from the expanded state to the
-     state returned by the merge-or-enqueue step, under that very symbol.
+     state returned by the merge-or-enqueue step, under that very symbol;
+  N6 (added after the second round of seeded changes) FIRST of a symbol sequence starts nullable and
+     every early exit of its loop clears the epsilon flag.
 """
 import re
 
@@ -58,6 +60,8 @@ def field_names_of(pl, base_local):
 
 def run_rules(ctx, res):
     N1, N2, N3, N4, N5 = "R-C17-coreq", "R-C17-firstflag", "R-C17-reenqueue", "R-C17-closure", "R-C17-transitions"
+    N6 = "R-C17-firstseq"
+    res.rule(N6, "every loop that computes FIRST of a symbol sequence starts with the epsilon flag true and clears it on every early exit (terminal reached / non-nullable nonterminal reached); only exhaustion leaves it set")
     res.rule(N1, "the function that decides merging is `subset(a, b) && subset(b, a)` (both argument orders) and the inclusion test compares exactly the rule index and the dot of items")
     res.rule(N2, "the FIRST fixpoint loop exits only when a whole pass reports no change; the pass ORs the flag of every rule without early exit; the accumulation step's flag compares every field of the accumulator it writes")
     res.rule(N3, "merge re-enqueues the state iff the items-added flag is set (no other condition); that flag becomes true exactly where an item is inserted; new states are pushed and enqueued unconditionally")
@@ -362,6 +366,88 @@ def run_rules(ctx, res):
         if not okq:
             res.violate(N4, "first-after-dot", c.where, "implied look-aheads must be FIRST(symbols after the dot of the given item) augmented with that item's own look-ahead; found (%s, %s)" % (a0[:120], a1))
     res.floor("FIRST-after-dot sites", len(fa), 1)
+
+    # ---- N6: FIRST of a symbol sequence
+    seqs = []
+    for f in stage:
+        if f.kind == "Closure" or f.output is None or not f.output["head"].endswith("::FirstSet"):
+            continue
+        ls = natural_loops(f)
+        if len(ls) != 1:
+            continue
+        (h, body) = ls[0]
+        exits = [(b, s_) for b in body for s_ in f.succs(b) if s_ not in body and f.blocks[s_]["term"]["k"] != "unreachable"]
+        if len(exits) < 2:
+            continue
+        seqs.append((f, h, body, exits))
+    for (f, h, body, exits) in seqs:
+        fx = Exprs(f)
+        dom = f.dominators()
+        # the epsilon component: a bool local flowing into the FirstSet aggregate, or the field of a FirstSet local
+        eps_locals = set()
+        for b in f.blocks:
+            if b["cleanup"]:
+                continue
+            for s_ in b["stmts"]:
+                if s_["k"] == "assign" and s_["rv"]["k"] == "agg" and s_["rv"].get("adt", "").endswith("::FirstSet") and "contains_epsilon" in s_["rv"].get("fields", []):
+                    o = s_["rv"]["ops"][s_["rv"]["fields"].index("contains_epsilon")]
+                    cur = o
+                    for _ in range(4):
+                        if cur["k"] in ("copy", "move") and not cur["pl"]["p"]:
+                            l = cur["pl"]["l"]
+                            if f.local_name(l):
+                                eps_locals.add(l)
+                                break
+                            ds = f.defs(l)
+                            if len(ds) == 1 and ds[0][0] == "assign" and ds[0][3]["rv"]["k"] == "use":
+                                cur = ds[0][3]["rv"]["op"]
+                                continue
+                        break
+
+        def eps_store(s_, value):
+            if s_["k"] != "assign" or s_["rv"]["k"] != "use" or s_["rv"]["op"]["k"] != "const" or s_["rv"]["op"]["v"] not in (value, "const " + value):
+                return False
+            pl = s_["pl"]
+            if not pl["p"] and pl["l"] in eps_locals:
+                return True
+            return any(isinstance(e, dict) and e.get("name") == "contains_epsilon" and str(e.get("owner", "")).endswith("::FirstSet") for e in pl["p"])
+
+        false_blocks = {bi for bi, b in enumerate(f.blocks) if not b["cleanup"] and any(eps_store(s_, "false") for s_ in b["stmts"])}
+        true_init = any((not b["cleanup"]) and bi not in body and bi in dom.get(h, ()) and (any(eps_store(s_, "true") for s_ in b["stmts"]) or any(s_["k"] == "assign" and s_["rv"]["k"] == "agg" and s_["rv"].get("adt", "").endswith("::FirstSet") and "const true" in str(s_["rv"]["ops"]) or (s_["k"] == "assign" and s_["rv"]["k"] == "agg" and s_["rv"].get("adt", "").endswith("::FirstSet") and any(o.get("v") in ("true", "const true") for o in s_["rv"]["ops"] if o["k"] == "const")) for s_ in b["stmts"])) for bi, b in enumerate(f.blocks))
+        back_sources = [b for b in body if h in f.succs(b)]
+        # the exhaustion exit: the switch on the discriminant of the loop's `next()` result
+        exhaustion = set()
+        for (b, s_) in exits:
+            t = f.blocks[b]["term"]
+            if t["k"] == "switch" and re.match(r"^discr\((Iterator|range|iter)[@\w]*::next\(", canon(fx.operand(t["discr"]))):
+                exhaustion.add((b, s_))
+        early = [e for e in exits if e not in exhaustion]
+        okq = true_init and bool(early)
+        missing = []
+        for (b, s_) in early:
+            # blocks of an early-exit path are not part of the natural loop: follow the straight-line chain
+            # from the exit target until it joins other paths
+            chain = []
+            cur = s_
+            seen_c = set()
+            while cur is not None and cur not in seen_c:
+                seen_c.add(cur)
+                chain.append(cur)
+                ss = f.succs(cur)
+                if len(ss) != 1:
+                    break
+                nxt = ss[0]
+                if len([p_ for p_ in f.preds(nxt) if p_ not in seen_c]) > 0 and len(f.preds(nxt)) > 1:
+                    break
+                cur = nxt
+            in_loop_store = [x for x in false_blocks if x in body and x in dom.get(b, ()) and not all(x in dom.get(bs, ()) for bs in back_sources)]
+            if not (set(chain) & false_blocks) and not in_loop_store:
+                okq = False
+                missing.append(b)
+        res.inst(N6, "first-of-sequence|%s" % f.name, f.where, True, "epsilon initialised true: %s; %d early exit(s), each clears epsilon: %s" % (true_init, len(early), not missing))
+        if not okq:
+            res.violate(N6, "first-of-sequence|%s" % f.name, f.where, "FIRST of a symbol sequence must start nullable and every early exit of the loop (a terminal, or a nonterminal that is not nullable) must clear the epsilon flag; %s%d early exit(s) leave it set — the sequence is then considered nullable and the item's own look-ahead is wrongly added" % ("the flag is not initialised to true; " if not true_init else "", len(missing)))
+    res.floor("FIRST-of-sequence loops", len(seqs), 3)
 
     # ---- N5
     tr = [f for f in stage if any((c.rpath or "").endswith("HashSet::<T, S, A>::insert") and "Transition" in str(c.callee.get("args")) for c in f.calls())]
